@@ -248,6 +248,9 @@ def run(ctx):
             f_ = strip(ts[2][0])
             if f_[0] == "slice" and strip(f_[1]) == ("param", dp) and f_[2] == ("const", 4) and f_[3] == ("const", 6):
                 return (72, 328)
+            if f_[0] == "slice" and strip(f_[1]) == ("param", dp) and f_[4] is None and all(b is not None and is_const(b) and isinstance(b[1], int) and b[1] >= 0 for b in (f_[2], f_[3])) \
+                    and 0 < f_[3][1] - f_[2][1] <= 4:
+                return (0, 256 ** (f_[3][1] - f_[2][1]) - 1)          # some other header bytes read as a number: any value of that width
         if call_is(ts, "len") and strip(ts[2][0]) == ("param", dp):
             return (72, 328)
         if call_is(ts, "len") and strip(ts[2][0])[0] == "slice":
